@@ -71,6 +71,22 @@ def signsEqualNonzero (src : Masters) : Bool :=
   (allNames src).all (fun n => (glyphsNamed src n).all (fun a => (glyphsNamed src n).all (fun b =>
     (a.comps.zip b.comps).all (fun p => sgn p.1.t.det == sgn p.2.t.det && sgn p.1.t.det != 0))))
 
+/-- the names a `BaseIFilter.__call__` iterates over: the next of the given set orders, else first-occurrence order -/
+def runNames (s : St) : List String := match s.orders with | o :: _ => o | [] => allNames s.ms
+
+/-- no glyph of `order` refers (through any chain of component references of the sources) to itself or to a glyph
+    that comes earlier in `order` or is in `seen` -/
+def topoB (src : Masters) : List String → List String → Bool
+  | _, [] => true
+  | seen, n :: ns => !reaches ((allNames src).length + 1) src (n :: seen) n && topoB src (n :: seen) ns
+
+/-- the depth-sorted order of the first interpolatable filter run is topological: composites before their bases
+    (ufo2ft sorts by a component depth computed in the FIRST glyph set that has the glyph, which does not guarantee it) -/
+def orderTopo (cfg : Cfg) (src : Masters) : Bool :=
+  match orderI src (runNames ⟨src, none, [], cfg.orders⟩) with
+  | .ok ord => topoB src [] ord
+  | .error _ => true
+
 /-- cu2qu's contract as far as `C09_pipeline_inst_partial` needs it: alike glyph sets in, alike glyph sets out -/
 def cu2quAlike (cfg : Cfg) (before : Option Masters) : Bool :=
   match before, cfg.cu2qu with
